@@ -71,6 +71,14 @@ theorem gen_uncovered : uncoveredOpcodes = expectedMissing := by decide +kernel
 /-- the variant of the data-section loop that `Model/Mir2CSection` models (via `loopFixed`) is the one in the source -/
 theorem gen_section_advance : Gen.C20.sectionAdvanceVar = expectedAdvance := by decide +kernel
 
+/-- the unsigned-overflow statement of ADDO/SUBO[S] is printed before the statement that stores the result -/
+theorem gen_uoverflow_first : Gen.C20.uoverflowBeforeStore = true := by decide +kernel
+
+/-- the rows without a Lean meaning (moves, floating point, conversions: opcode, helper, cast/operator text)
+and the list of inline cases are the reviewed ones -/
+theorem gen_other_rows : Gen.C20.otherRows = Canon.C20.otherRows := by decide +kernel
+theorem gen_inline_cases : Gen.C20.inlineCases = Canon.C20.inlineCases := by decide +kernel
+
 theorem gen_helper_text : Gen.C20.helperText = Canon.C20.helperText := by decide +kernel
 theorem gen_pinned : Gen.C20.pinned = Canon.C20.pinned := by decide +kernel
 
